@@ -672,6 +672,11 @@ func (m *LinearBlockMetadata) Free(allocHandle BlockAllocationHandle) error {
 		// Item from the middle of second vector
 		out, found := sort.Find(len(secondVector), func(index int) int {
 			foundOffset := secondVector[index].Offset
+			if m.secondVectorMode == SecondVectorModeRingBuffer {
+				// The second half of a ring buffer is sorted by ascending offset
+				return offset - foundOffset
+			}
+			// The upper stack is sorted by descending offset
 			return foundOffset - offset
 		})
 		if found {
